@@ -398,6 +398,12 @@ func c18MuxScenarios(thorough bool) []*explore.Scenario {
 	mk := func(name string, progs []c18Prog) *explore.Scenario {
 		return &explore.Scenario{Name: name, Quick: explore.Bounds{P: 2}, Thorough: explore.Bounds{P: 3}, Body: c18MuxBody(progs), Sig: c18Sig}
 	}
+	if os.Getenv("C18_EXPERIMENT") != "" {
+		sc := mk("mux-x", []c18Prog{{c18LS, c18C5, c18XS, c18LS}, {c18LS, c18C5, c18XS, c18LS, c18AS}})
+		sc.Quick.FreeSwitch = true
+		sc.Quick.P = 1
+		return []*explore.Scenario{sc}
+	}
 	return []*explore.Scenario{
 		mk("mux-route", c18Programs(nRoute, "route")),
 		mk("mux-unrouted", c18Programs(nClose, "unrouted")),
